@@ -156,7 +156,6 @@ def make_just(framing, d, fc, L, with_client=False):
             assume(B[0] == 0x3A)
             assume(B[3] == hx[0])
             assume(B[4] == hx[1])
-            known("KF-ascii-lenient-lrc-field", _lenient_lrc(B))
         elif framing == "binary":
             assume(B[0] == 0x7B)
             assume(B[FCPOS[framing]] == fc)
@@ -331,8 +330,7 @@ def obligations(tier):
                 for L in lens[framing]:
                     out.append(Obl("just.%s.%s.fc%d.len%d" % (framing, d, fc, L), make_just(framing, d, fc, L), timeout=T,
                                    contracts=contracts[framing], lemmas=lem[framing],
-                                   findings=(("KF-tcp-headerless-error-frame",) if framing == "tcp" and fc in (3, 0x55) and L == 12 else ()) +
-                                            (("KF-ascii-lenient-lrc-field",) if framing == "ascii" and fc in (6, 7) and d == "rsp" else ()),
+                                   findings=(("KF-tcp-headerless-error-frame",) if framing == "tcp" and fc in (3, 0x55) and L == 12 else ()),
                                    bounds="%s framing, %s decoder, any %d-byte buffer whose function-code byte is 0x%02X, one read" % (framing, d, L, fc)))
     # a fixed-format request with room for trailing bytes behind it (announced length symbolic)
     for fc, L in (((22, 15),) if tier == "quick" else ((22, 15), (6, 13), (3, 13), (5, 14))):
